@@ -131,6 +131,13 @@ package contractcourt
 //@   site call handlePossibleBreach: assert arg(1) == commitSpend && arg(2) == broadcastStateNum
 //@   site call dispatchRemoteForceClose nth 0: assert arg(1) == commitSpend && arg(3).ConfCommitKey.isSome && arg(3).ConfCommitKey.some == RemoteHtlcSet &&
 //@        arg(4) == c.cfg.chanState.RemoteCurrentRevocation
+//@   // the close summary (and with it every HTLC resolution) is built from the commitment that CONFIRMED
+//@   site call dispatchRemoteForceClose nth 0 as summary-from-confirmed-commitment: assert arg(2).CommitTx == chainSet.remoteCommit.CommitTx &&
+//@        arg(2).CommitHeight == chainSet.remoteCommit.CommitHeight && arg(2).Htlcs == chainSet.remoteCommit.Htlcs &&
+//@        arg(2).LocalBalance == chainSet.remoteCommit.LocalBalance && arg(2).RemoteBalance == chainSet.remoteCommit.RemoteBalance
+//@   site call dispatchRemoteForceClose nth 1 as summary-from-confirmed-pending-commitment: assert arg(2).CommitTx == chainSet.remotePendingCommit.CommitTx &&
+//@        arg(2).CommitHeight == chainSet.remotePendingCommit.CommitHeight && arg(2).Htlcs == chainSet.remotePendingCommit.Htlcs &&
+//@        arg(2).LocalBalance == chainSet.remotePendingCommit.LocalBalance && arg(2).RemoteBalance == chainSet.remotePendingCommit.RemoteBalance
 //@   site call dispatchRemoteForceClose nth 1: assert arg(1) == commitSpend && arg(3).ConfCommitKey.isSome && arg(3).ConfCommitKey.some == RemotePendingHtlcSet &&
 //@        arg(4) == c.cfg.chanState.RemoteNextRevocation && chainSet.remotePendingCommit != nil
 //@
